@@ -44,15 +44,16 @@ RULE = ("(1) trees of file items (comments, blanks, requirements with tokens/has
         "file has a continuation, a hash, an include or an option line and was read without error; distinct = distinct "
         "file maps.")
 TRUSTED_BASE = [
-    "T1 harness/tr_c16.py: include flags, --hash prefix, option/comment prefixes, continuation character and the shape of every branch of req_iter_from_lines; prefixes/cuts/strip set of parse_index_urls; option table, strictness and merged dests of the CLI re-parse -> gen/ReqFileConstsC16.v",
+    "T1 harness/tr_c16.py: include flags, --hash prefix, option/comment prefixes, continuation character and the shape of every branch of req_iter_from_lines incl. the option-line grammar block and _COMMENT_RE; `line.strip()`, prefixes/cuts/strip set of parse_index_urls; option table, strictness and the exact merge statements (ordered de-duplicating unions for index_urls/extra_index_urls/find_links, `or` for no_index) of the CLI re-parse -> gen/ReqFileConstsC16.v",
     "T2 harness/c16.py: generators, on-disk fixtures, interception of build_repo and parse_requirement, canonicalisation",
     "CPython: open().readlines(), str.splitlines(), os.path (dirname/join re-modelled and compared), argparse 3.12 (re-modelled for this option table and compared)",
     "pkg_resources.Requirement.parse (one requirement text -> Requirement) is outside the model: an oracle `valid`; pip 26 req_file parser is a tested second oracle for the specification, not proved",
     "modelled, not verified: req_compile/utils.py req_iter_from_lines/req_iter_from_file, containers.reqs_from_files/RequirementsFile.from_file, cmdline.compile_main lines 912-952, private/compiler.py parse_index_urls/compile_requirements up to build_repo",
 ]
 ASSUMPTIONS = [
-    "bytes model: white space is ASCII white space (str.strip/str.split also treat U+0085, U+00A0, ... as white space; never generated)",
+    "bytes model: white space is ASCII white space (str.strip/str.split/re \\s also treat U+0085, U+00A0, ... as white space; never generated); a joined logical line holds no newline",
     "the requirement parser drops a trailing ' #...' comment (pkg_resources drop_comment); req_meaning states it on tokens",
+    "shlex.split (posix, no comment characters) and re.sub of utils._COMMENT_RE are re-modelled (shlex_split, drop_comment) and compared with CPython on every run",
     "argparse tokens beginning with -h (other than -h itself), an explicit argument '--', and -e/--editable are reported as Unmodelled and never generated",
     "the stdin branch of _create_input_reqs is covered only as req_iter_from_lines with relative_dir=None; several input files / several Bazel requirement files (accumulation across files) are not covered: every case has one root file",
     "front-end comparison stops at the arguments of build_repo (index_urls, extra_index_urls, find_links, no_index); relative --find-links are resolved against different directories by the two front-ends (cwd vs the file's directory), which is not compared",
@@ -857,6 +858,30 @@ def _correspondence(ctx: Ctx) -> None:
         want_ok = (got == texts) if err is None else (got[: len(texts)] == texts and text_invalid(texts[-1]))
         if not want_ok:
             ctx.mismatch("parse_requirements", ls, {"texts": texts, "err": err}, got)
+    # shlex.split / the comment regex (re-modelled for the option-line grammar) against CPython
+    import re as _re
+    import shlex as _shlex
+    cre = _re.compile(r"(^|\s+)#.*$")
+    PIECES = ["--index-url", "-f", "a", "b c", '"', "'", "\\", " ", "  ", "\t", "#", " #", "x#y", "=", '"q w"', "'s t'", '"un', "\\ ", '\\"', "'a\\'", '"a\\"b"',
+              '""', "''", "\x0b", "\x0c", "http://x/a#frag", " # c", "\t#c"]
+    xlines, xexp = [], []
+    for _ in range(ctx.n(400, 8000)):
+        t = "".join(rng.choice(PIECES) for _ in range(rng.choice([1, 2, 3, 4, 6])))
+        dc = cre.sub("", t)
+        try:
+            want = ("OK", _shlex.split(dc), dc)
+        except ValueError:
+            want = ("ERR", None, dc)
+        xlines.append("X " + hx(t))
+        xexp.append((t, want))
+    for (t, want), ans in zip(xexp, run_model("C16", xlines)):
+        tk = Tok(ans)
+        kind = tk.next()
+        got = (kind, tk.strs() if kind == "OK" else None, unhx(tk.next()))
+        ctx.case(key=("X", t), nontrivial=want[0] == "OK" and len(want[1] or []) > 1)
+        ctx.count("kind:shlex")
+        if got != want:
+            ctx.mismatch("shlex-split/comment-regex", t, want, got)
     # (4a) parse_index_urls on line soups
     comp = S["comp"]
     blines, bexp = [], []
@@ -1190,13 +1215,16 @@ def _retuple(i: Dict[str, Any]) -> None:
             _retuple(j)
 
 
-LEVEL_TEXT = ("Theorems over a Gallina model of req_iter_from_lines/req_iter_from_file (state machine, --hash stripping, "
-              "-r resolution relative to the including file over an abstract file map), of parse_index_urls and of the argparse "
-              "re-parse in compile_main: for ALL conventionally formatted item trees the reader yields exactly the file's "
-              "requirements and option tokens (induction over items and nesting depth); options are never read as requirements "
-              "(all inputs); both front-ends agree on index/extra-index locations for plain long-form directives; refuted "
-              "witnesses (quoted values, indented/tab/nested directives, --find-links ignored by the CLI, comments on option "
-              "lines, --requirement=f) are proved on the model and replayed on the real code on every run.")
+LEVEL_TEXT = ("Theorems over a Gallina model of req_iter_from_lines/req_iter_from_file (state machine, --hash stripping, pip's "
+              "option-line grammar: comment regex + shlex, -r/--requirement[=] resolution relative to the including file over an "
+              "abstract file map), of parse_index_urls and of the argparse re-parse and merge in compile_main: for ALL "
+              "conventionally formatted item trees (quoted or bare option values, comments after options, several options per "
+              "line) the reader yields exactly the file's requirements and pip's option tokens (induction over items and nesting "
+              "depth); options are never read as requirements and line_parts[0] never raises (all inputs); both front-ends agree "
+              "on index, extra-index and find-links locations for one-directive-per-line files (indented, tab/blank or '=' "
+              "separated, quoted or not, commented or not) and the command line keeps its own options first; the remaining "
+              "disagreements (nested and several-per-line directives on the Bazel side) and the layouts outside the domain are "
+              "proved as witnesses and replayed on the real code and on pip on every run.")
 LEVEL_NOTE = ("Trusted: Coq kernel, extraction, OCaml driver, T1 translator, T2 harness; pkg_resources' parse of one requirement "
               "string, CPython's readlines/splitlines/argparse and pip's parser are validated by sampling only.")
 TECHNIQUE = "Rocq proof over Gallina model (induction over item trees with fuel-indexed nesting; string lemmas) + extraction-based differential correspondence on rendered files on disk + pip as tested oracle"
